@@ -249,6 +249,9 @@ Qed.
 Lemma wf_repr_items (ft : ftype) (r : repr) : wf_repr ft r -> wf_items ft (repr_items r).
 Proof. destruct r; cbn [wf_repr repr_items wf_items]; auto. Qed.
 
+Lemma tmpl_src_same (rt rp : repr) : repr_count rt = repr_count rp -> tmpl_src_items rt rp = repr_items rp.
+Proof. intro Hc. unfold tmpl_src_items. rewrite Hc, N.leb_refl. apply take_var_sum. Qed.
+
 Lemma tr_field_leaf (ft : ftype) (rt rp : repr) :
   ft_flattenable ft = true -> ft <> TMessage -> wf_repr ft rp -> repr_count rt = repr_count rp ->
   ts_field ft rt (Some rp) < two32 ->
@@ -283,7 +286,7 @@ Proof.
     destruct (flat_repr_var ft rp Hft Hwp) as [Efl Esr].
     assert (Ets : ts_field ft rt (Some rp) = size_repr ft rp).
     { rewrite Esr. destruct Hft as [-> | ->]; destruct rt; cbn [ts_field ft_elems_fixed];
-        rewrite sizeof_u32, Hc, take_var_sum;
+        rewrite sizeof_u32, (tmpl_src_same _ _ Hc), Hc;
         (match goal with |- _ + ?f _ = _ => change f with var_sum end); lia. }
     rewrite Ets in *. split; [exact Hl|].
     intro rest.
